@@ -156,4 +156,41 @@ func familyCases(f func(treeCase)) {
 		f(treeCase{fmt.Sprintf("F6 string size=%d in list", s), tree.L(tree.B(tree.String, tree.Fill(s, 0)), tree.B(tree.Bytes, tree.Fill(s, 0xff)))})
 		f(treeCase{fmt.Sprintf("F6 struct with bytes size=%d", s), tree.L(tree.S(tree.B(tree.Bytes, tree.Fill(s, 1)), tree.I(tree.Int64, -5)))})
 	}
+	// F7: a nested message (as a field, as a list element, two levels deep) opened AFTER its ancestors wrote
+	// fields: all open messages share one field stack, so every lookup in the nested table (HasField, Copy,
+	// Merge) depends on the table offset. Tag sets of parent and child are aligned, shifted and overlapping.
+	val := func(level int, tag uint16) *tree.Node { return tree.I(tree.Int32, int64(level*1000+int(tag))) }
+	mk := func(level int, tags []uint16) []tree.Field {
+		var fs []tree.Field
+		for _, t := range tags {
+			fs = append(fs, tree.Fd(t, val(level, t)))
+		}
+		return fs
+	}
+	parents := [][]uint16{{}, {1}, {7}, {1, 2}, {2, 9}, {1, 2, 3}, {5, 6, 7, 300}}
+	childs := [][]uint16{{1}, {2}, {7}, {1, 2}, {2, 7, 9}, {1, 2, 3, 4}, {9, 2}}
+	for pi, pt := range parents {
+		for ci, ct := range childs {
+			for trailing := 0; trailing <= 3; trailing += 1 + pi%2 {
+				child := tree.M(mk(2, ct)...)
+				var tr []tree.Field
+				for k := 0; k < trailing; k++ {
+					tr = append(tr, tree.Fd(uint16(60+k), val(1, uint16(60+k))))
+				}
+				name := fmt.Sprintf("F7 parent tags %v child tags %v trailing %d", pt, ct, trailing)
+				// nested as a field
+				fs := append(append(mk(1, pt), tree.Fd(50, child)), tr...)
+				f(treeCase{name + " (field)", tree.M(fs...)})
+				// nested as an element of a list field, after a first element
+				fs = append(append(mk(1, pt), tree.Fd(50, tree.L(tree.M(mk(3, ct[:1])...), child))), tr...)
+				f(treeCase{name + " (list element)", tree.M(fs...)})
+				// two levels: the middle message also has fields before the innermost one
+				if (pi+ci)%2 == 0 {
+					mid := tree.M(append(mk(3, ct), tree.Fd(40, child), tree.Fd(41, val(3, 41)))...)
+					fs = append(append(mk(1, pt), tree.Fd(50, mid)), tr...)
+					f(treeCase{name + " (two levels)", tree.M(fs...)})
+				}
+			}
+		}
+	}
 }
